@@ -47,6 +47,16 @@ def gen(ctx):
     e2e.gen_category()
 
 
+def fast_rmtree(base):
+    """the scratch tree holds thousands of small project directories: delete them in parallel"""
+    try:
+        subs = [os.path.join(base, d) for d in os.listdir(base)]
+    except OSError:
+        subs = []
+    e2e.pmap(lambda d: shutil.rmtree(d, ignore_errors=True), subs)
+    shutil.rmtree(base, ignore_errors=True)
+
+
 GEN_NAME = re.compile(r"([A-Za-z_][A-Za-z_0-9]*?)_\d+_\d+")
 STUB_NAMES = ("LessThan", "Num2Bits")
 
@@ -172,8 +182,13 @@ def gen_structure(rng, k, rich):
 ANON_CALL = re.compile(r"\b([A-Za-z_][A-Za-z_0-9]*)\s*\([^()]*\)\s*\(")
 
 
+_ANON_CACHE = {}
+
+
 def anon_callees(text):
-    return sorted(set(ANON_CALL.findall(text)) - {"assert", "log"})
+    if text not in _ANON_CACHE:
+        _ANON_CACHE[text] = sorted(set(ANON_CALL.findall(text)) - {"assert", "log"})
+    return _ANON_CACHE[text]
 
 
 def instantiated_names(st):
@@ -385,8 +400,9 @@ def run(ctx, proofs):
     base = e2e.scratch_dir("C17")
     try:
         nproj = 150 if quick else 1000
-        extra_same = 0 if quick else 10         # more fresh processes per case in thorough
-        reps = 8 if quick else 32               # in-process repetitions (fresh thread = fresh hasher keys) per distinct project
+        extra_same = 0 if quick else 8          # more fresh processes per case in thorough
+        reps = 8 if quick else 32               # in-process repetitions (fresh thread = fresh hasher keys) of every base project
+        reps_variant = 8                        # ... and of every other distinct project text
         structures = [gen_structure(ctx.rng, i, rich=(i % 3 != 0)) for i in range(nproj)]
         projects, info, texts = [], [], []          # info: (structure index, variant kind); texts: {(kind, name): (file, text)}
         for k, st in enumerate(structures):
@@ -409,6 +425,7 @@ def run(ctx, proofs):
             p.write(base, i)
         runs = [{"p": i, "level": "info", "allow": [], "verbose": True, "sarif": True} for i in range(len(projects))]
         e2e.execute_runs(cli, projects, runs)
+        common.log("C17: %d runs of the binary done" % len(runs))
         groups = {}
         for i, (k, kind) in enumerate(info):
             groups.setdefault(k, []).append(i)
@@ -439,8 +456,11 @@ def run(ctx, proofs):
                 perm_cases[i] = perms
             dep_extra.append(x)
         deps = dict(zip(distinct, harness_lines("deps", [projects[i] for i in distinct], dep_extra)))
-        orders = dict(zip(distinct, harness_lines("orders", [projects[i] for i in distinct], [{"reps": reps}] * len(distinct))))
+        common.log("C17: harness c17 deps done (%d projects)" % len(distinct))
+        orders = dict(zip(distinct, harness_lines("orders", [projects[i] for i in distinct],
+                                                  [{"reps": reps if info[i][1] == "same" else reps_variant} for i in distinct])))
 
+        common.log("C17: harness c17 orders done (%d projects x %d / %d repetitions)" % (len(distinct), reps, reps_variant))
         failing, broken = [], []
         compared, nontrivial, seen_orders = 0, 0, set()
         known_hit = None
@@ -467,10 +487,14 @@ def run(ctx, proofs):
                                             % (" ".join(o), perms[0], str(first.get(o))[:300], perm, str(got.get(o))[:300])})
                     break
 
+        infl_cache = {}
+
         def influencers(i):
             """{(kind, name): names that may influence its findings} of project i: the templates the real runner was asked
             for while it was analysed + the templates it instantiates anonymously (desugaring reads their signals)."""
             j = rep_of[i]
+            if j in infl_cache:
+                return infl_cache[j]
             rs = deps[j].get("runs", [])
             lk = lookups_of(rs[0], projects[j]) if rs and not rs[0].get("panic") else {}
             out = {}
@@ -479,6 +503,7 @@ def run(ctx, proofs):
                 if o in lk:
                     s |= {l[1] for l in lk[o]["lookups"]}
                 out[o] = s
+            infl_cache[j] = (out, lk)
             return out, lk
 
         # ---- (2) the binary in fresh processes + the in-process pipeline: variants against the base project
@@ -591,6 +616,28 @@ def run(ctx, proofs):
                                            "what": "%s of %s differ between two projects in which its source text and the answers to all "
                                                    "its lookups (%s) are the same: Model.RunnerSrc assumes they are a function of these"
                                                    % (what, " ".join(o), [l[1] for l in lk_b[o]["lookups"]])})
+        # ---- (4) the witness of C17_referenced_definition_matters, replayed on the real code
+        wit_ok = None
+        wpath = os.path.join(common.VERIF, "corpus", "C17", "witness", "referenced-definition-matters.json")
+        if os.path.exists(wpath):
+            w = json.load(open(wpath))
+            wp = [e2e.project_from_description(w["with"]).write(base, len(projects) + 1),
+                  e2e.project_from_description(w["without"]).write(base, len(projects) + 2)]
+            wr = [{"p": i, "level": "info", "allow": [], "verbose": True, "sarif": True} for i in range(2)]
+            e2e.execute_runs(cli, wp, wr)
+            wf = [findings_of_run(p, r) for p, r in zip(wp, wr)]
+            wd = harness_lines("deps", wp, [{}, {}])
+            own = tuple(w["definition"])
+            ids = [sorted(x[0] for x in f.get(own, [])) for _, f in wf]
+            looked = [[(l["name"], l["answer"]) for d in (x.get("runs") or [{}])[0].get("defs", []) if (d["kind"], d["name"]) == own
+                       for l in d["lookups"]] for x in wd]
+            wit_ok = (wf[0][0] and wf[1][0] and w["expect_only_with"] in ids[0] and w["expect_only_with"] not in ids[1]
+                      and [a is not None for _, a in looked[0]] == [True] and [a is not None for _, a in looked[1]] == [False])
+            if not wit_ok and not failing and not broken:
+                ctx.violation("the witness of C17_referenced_definition_matters no longer shows on the real code: findings of %s with the "
+                              "looked-up template present %s / absent %s, lookups %s / %s" % (" ".join(own), ids[0], ids[1], looked[0], looked[1]),
+                              {"broken": "C17_referenced_definition_matters (coq/props/C17.v) vs unused_output_signal.rs",
+                               "project": wp[0].describe(), "variant": wp[1].describe(), "kind": "witness"}, no_input=True)
         if known_hit:
             ctx.known_finding("C17-duplicate-definition-order", known_hit)
         for f in failing[:5]:
@@ -624,7 +671,7 @@ def run(ctx, proofs):
         for _, kind in info:
             kinds[kind] = kinds.get(kind, 0) + 1
         nproc_min = min(len(v) for k, v in groups.items() if not isinstance(k, str))
-        n_quick = nproc_min + reps
+        n_samples = nproc_min + reps
         ctx.coverage.update({
             "evaluations": len(runs) + inproc_runs + perm_orders,
             "distinct_nontrivial": len(seen_orders),
@@ -632,8 +679,8 @@ def run(ctx, proofs):
                     "(--level info --verbose --sarif-file), or the pipeline of main.rs in a fresh thread of harness `c17 orders`, or one "
                     "analysis order driven through the real runner by harness `c17 deps`; every project is run >= %d times in fresh "
                     "processes (unchanged, definitions permuted, files permuted, unreferenced definitions added / removed, a referenced "
-                    "definition changed) and every distinct project text %d times in process; distinct-nontrivial = distinct "
-                    "(project text, observed analysis order) pairs" % (nproc_min, reps),
+                    "definition changed), its unchanged text %d times in process and every variant text %d times in process; "
+                    "distinct-nontrivial = distinct (project text, observed analysis order) pairs" % (nproc_min, reps, reps_variant),
             "exhaustive": False,
             "projects": len(structures), "projects_displaying_findings": nontrivial, "comparisons": compared,
             "runs_per_variant_kind": kinds, "corpus_witnesses": [c["_file"] for c in corpus],
@@ -650,15 +697,16 @@ def run(ctx, proofs):
             "probability_of_missing_a_two_outcome_order_dependence": {
                 "assumption": "the hasher keys of different processes / threads are independent (std RandomState: OS randomness per "
                               "thread); q = probability of the rarer outcome under one hash state; per affected project",
-                "q=1/2 (relative order of two map entries)": miss_probability(n_quick, 0.5),
-                "q=1/6 (one of the orders of three entries)": miss_probability(n_quick, 1 / 6.0),
-                "q=1/24": miss_probability(n_quick, 1 / 24.0),
-                "n": n_quick,
+                "q=1/2 (relative order of two map entries)": miss_probability(n_samples, 0.5),
+                "q=1/6 (one of the orders of three entries)": miss_probability(n_samples, 1 / 6.0),
+                "q=1/24": miss_probability(n_samples, 1 / 24.0),
+                "n": n_samples,
                 "fresh processes only, q=1/2": miss_probability(nproc_min, 0.5),
                 "note": "a dependence that shows in m generated projects is missed with the m-th power of this; "
-                        "log2 of the q=1/2 bound: %.1f" % math.log2(miss_probability(n_quick, 0.5)),
+                        "log2 of the q=1/2 bound: %.1f" % math.log2(miss_probability(n_samples, 0.5)),
             },
             "spec_failures": len(failing), "model_assumption_failures": len(broken),
+            "refuted_witness_replayed_on_real_code": wit_ok,
             "samples": [{"tag": projects[i].tag, "argv": projects[i].argv, "exit": runs[i]["exit"],
                          "displayed": len([e for e in runs[i]["events"] if e[0] == "diag"])} for i in (0, len(runs) // 2, cstart - 1)],
         })
@@ -673,7 +721,7 @@ def run(ctx, proofs):
             "is compared instead of line numbers)",
         ]
     finally:
-        shutil.rmtree(base, ignore_errors=True)
+        fast_rmtree(base)
 
 
 def replay(ctx, rep):
@@ -710,4 +758,4 @@ def replay(ctx, rep):
                 print("   %s %s looked up: %s" % (x["kind"], x["name"], [(l["name"], l["answer"]) for l in x["lookups"]]))
         return 1 if len(distinct) > 1 or len(o.get("outcomes", [])) > 1 else 0
     finally:
-        shutil.rmtree(base, ignore_errors=True)
+        fast_rmtree(base)
